@@ -19,6 +19,19 @@ EPS = 2.0 ** -53
 SCALAR_EDGE_VALUES = (EPS, 0.5, 0.5 + EPS, 1.0 - EPS, 0.25, 0.75)
 
 
+BIG = 4096
+
+
+class _Big(object):
+    __slots__ = ('digest',)
+
+    def __init__(self, digest):
+        self.digest = digest
+
+    def __repr__(self):
+        return 'big:' + self.digest
+
+
 class SimAbort(BaseException):
     """Injected fault: the generator 'fails' at draw k. BaseException so that a bare `except:` in
     library code cannot swallow it."""
@@ -33,6 +46,8 @@ class ReplayDiverged(BaseException):
 
 
 def _jsonable(v):
+    if isinstance(v, _Big):
+        return {'big': v.digest}
     if isinstance(v, np.ndarray):
         return v.tolist()
     if isinstance(v, (np.integer,)):
@@ -286,7 +301,7 @@ class SimRNG(np.random.RandomState):
                 rm, ra, rs, rv = st.replay[seq]
                 rs = tuple(rs) if rs is not None else None
                 if rm == method and ra == arg and rs == size:
-                    v = cast(rv)
+                    v = None if isinstance(rv, dict) and 'big' in rv else cast(rv)
                 elif st.strict:
                     raise ReplayDiverged('draw %d: code asks %s(%r,%r), trace has %s(%r,%r)' % (seq, method, arg, size, rm, ra, rs))
                 else:
@@ -313,7 +328,12 @@ class SimRNG(np.random.RandomState):
             st.last_randint[arg] = v
         elif method == 'permutation':
             st.last_perm[arg] = v.copy()
-        st.events.append((method, arg, size, site, v.copy() if isinstance(v, np.ndarray) else v))
+        if isinstance(v, np.ndarray) and v.size > BIG:
+            # very large draws (N x N uniforms for N in the hundreds) are logged by digest only; on replay they are
+            # re-drawn from the base stream, which is deterministic because every earlier draw is replayed identically
+            st.events.append((method, arg, size, site, _Big(hashlib.sha1(np.ascontiguousarray(v).tobytes()).hexdigest()[:16])))
+        else:
+            st.events.append((method, arg, size, site, v.copy() if isinstance(v, np.ndarray) else v))
         return v
 
     def randint(self, low, high=None, size=None, dtype=int):
